@@ -77,7 +77,7 @@ def generate(rng, tier):
                     if tier == "quick" and rng.random() < 0.5:
                         continue
                     yield mk(rng, lens, ca, nd, C.sl(a, b), bare=(nd == 1 and rng.random() < 0.5))
-    n_random = 600 if tier == "quick" else 12000
+    n_random = 600 if tier == "quick" else 60000
     for _ in range(n_random):
         n = rng.randint(1, 4)
         lens = [rng.randint(1, 4) for _ in range(n)]
